@@ -24,263 +24,273 @@ def run(ctx: Context) -> None:
     ctx.rule('R10.4', "derived tables agree with face-node: one consecutive-pair iterator (closing the ring), edges keyed by unordered node pair, edge-face filled per face edge, face-face written in both directions", floor=10)
     ctx.rule('R10.5', "dimensions are discovered from the mesh attributes with the documented fall-backs", floor=5)
     ctx.rule('R10.6', "normalising a table never writes into the dataset's own arrays (a second topology on the same data sees the same file)", floor=1)
+    ctx.rule('R10.7', "faces are built from the unmasked entries of the normalised face-node table only: rows are grouped by their unmasked count and each group reads exactly that many leading columns; each group is written to its own rows (facts shared with C02 R02.3)", floor=4)
+    from . import c02 as _c02
+    from .common import share_obligations as _share
+    _share(ctx, _c02, {'R02.3'}, 'R10.7', only=lambda ob: 'UGrid._make_polygons' in ob.function)
     ctx.assume("numpy.ma masked_invalid / masked_equal / masked_array semantics; UGRID attribute names are fixed by the specification")
 
     # ------------------------------------------------------------------ R10.1
-    ti = ctx.func(f"{TOPO}._to_index_array")
-    flow = ctx.flow(ti)
-    cfg = ctx.cfg(ti)
-    da, prim = ti.params[1], ti.params[2]
-    raises = [n for n in walk_no_nested(ti.node) if isinstance(n, ast.Raise)]
-    ok = any(any(inb and norm_text(st.test) == f"{prim} not in {da}.dims" for st, inb in enclosing_ifs(ti, r)) for r in raises)
-    ctx.check('R10.1', ok, "a table lacking its primary dimension is rejected", ti, raises[0] if raises else ti.node,
-              construct=f"raise under `{prim} not in {da}.dims`")
-    trs = [c for c in method_calls(ti, 'transpose')]
-    ok = False
-    if len(trs) == 1:
-        g = [(norm_text(st.test), inb) for st, inb in enclosing_ifs(ti, trs[0])]
-        st = stmt_of(ti, trs[0])
-        ok = ((f"{da}.dims[0] != {prim}", True) in g and isinstance(st, ast.Assign) and norm_text(st.targets[0]) == da
-              and norm_text(trs[0].func.value) == da and not trs[0].args)
-    ctx.check('R10.1', ok, "the table is transposed exactly when its first dimension is not the primary dimension", ti, trs[0] if trs else ti.node)
-    # the three-way masking
-    branch = None
-    for n in walk_no_nested(ti.node):
-        if isinstance(n, ast.If) and 'numpy.integer' in norm_text(n.test):
-            branch = n
-    ctx.need('R10.1', branch is not None, "_to_index_array distinguishes integer from floating point tables", ti)
-    t1 = norm_text(branch.test)
-    ok1 = t1 == 'not issubclass(values.dtype.type, numpy.integer)'
-    body1 = ' '.join(norm_text(s) for s in branch.body)
-    ok1 = ok1 and 'numpy.ma.masked_invalid(values)' in body1 and 'astype(self.sensible_dtype)' in body1
-    ctx.check('R10.1', ok1, "floating point tables: NaN entries are masked (masked_invalid) and the rest cast to the integer dtype", ti, branch,
-              construct=f"float branch: {t1}")
-    ok2 = False
-    ok3 = False
-    if len(branch.orelse) == 1 and isinstance(branch.orelse[0], ast.If):
-        el = branch.orelse[0]
-        ok2 = norm_text(el.test) == f"'_FillValue' in {da}.attrs" and any(
-            isinstance(c, ast.Call) and callee(ctx, ti, c) == 'numpy.ma.masked_equal' and len(c.args) == 2
-            and norm_text(c.args[1]) == f"{da}.attrs['_FillValue']" for s in el.body for c in ast.walk(s))
-        eb = ' '.join(norm_text(s) for s in el.orelse)
-        ok3 = bool(el.orelse) and 'numpy.ma.masked_array(values' in eb and 'nomask' in eb
-    ctx.check('R10.1', ok2, "integer tables with a _FillValue attribute: entries equal to it are masked", ti, branch.orelse[0] if branch.orelse else branch,
-              construct='elif `_FillValue` in attrs: masked_equal(values, attrs[_FillValue])')
-    ctx.check('R10.1', ok3, "otherwise nothing is masked (exhaustive third case)", ti, branch, construct='else: masked_array(values, mask=nomask)')
-    # masking sees the RAW values; start_index is subtracted afterwards
-    subs = [n for n in walk_no_nested(ti.node) if isinstance(n, ast.Assign) and isinstance(n.value, ast.BinOp) and isinstance(n.value.op, ast.Sub)
-            and flow.reaches(n.value.right, lambda m: isinstance(m, ast.Call) and callee(ctx, ti, m) == f"{UGRID}._get_start_index")]
-    other_sub = [n for n in ast.walk(ti.node) if isinstance(n, ast.BinOp) and isinstance(n.op, (ast.Sub, ast.Add))
-                 and not any(n is s.value for s in subs)]
-    ok_sub = len(subs) == 1 and cfg.dominates(branch, subs[0]) and not any(x is subs[0] for x in ast.walk(branch))
-    ctx.check('R10.1', ok_sub, "start_index is subtracted once, after the fill entries have been masked", ti, subs[0] if subs else ti.node,
-              construct=f"start_index subtraction: {norm_text(subs[0]) if subs else 'absent'}")
-    raw = [n for n in walk_no_nested(ti.node) if isinstance(n, ast.Assign) and norm_text(n.targets[0]) == 'values' and cfg.dominates(n, branch)]
-    ok_raw = len(raw) == 1 and norm_text(raw[0].value) == f"{da}.values"
-    ctx.check('R10.1', ok_raw and not other_sub, "the values compared with the fill value are the stored ones (no arithmetic before masking)", ti,
-              raw[0] if raw else ti.node, construct=f"values before masking: {[norm_text(r.value) for r in raw]}; other arithmetic: {[norm_text(o) for o in other_sub]}")
-    if subs:
-        g = [(norm_text(st.test), inb) for st, inb in enclosing_ifs(ti, subs[0])]
-        arg_ok = flow.reaches(subs[0].value.right, lambda m: isinstance(m, ast.Call) and callee(ctx, ti, m) == f"{UGRID}._get_start_index"
-                              and len(m.args) == 1 and norm_text(m.args[0]) == da)
-        ctx.check('R10.1', arg_ok and norm_text(subs[0].targets[0]) == 'values' and norm_text(subs[0].value.left) == 'values',
-                  "the offset subtracted is this table's own start_index", ti, subs[0])
-    rets = ti.returns()
-    ctx.check('R10.1', bool(rets) and all(norm_text(r.value) == 'values' for r in rets), "the normalised array is returned", ti, rets[0] if rets else ti.node)
-    gs = ctx.func(f"{UGRID}._get_start_index")
-    gflow = ctx.flow(gs)
-    rv = []
-    for r in gs.returns():
-        tests = [norm_text(st.test) for st, inb in enclosing_ifs(gs, r) if inb]
-        rv.append((norm_text(r.value), tests))
-    ok = (("0", ["'start_index' not in connectivity.attrs"]) in rv and any(v.endswith('start_index)') and t == ['start_index in {0, 1}'] for v, t in rv)
-          and any(v == 'int(start_index)' and t == ["start_index in {'0', '1'}"] for v, t in rv))
-    gcfg = ctx.cfg(gs)
-    ex = gcfg.exits()
-    ok = ok and not [n for k, n in ex if k == 'fall'] and any(k == 'raise' and 'ConventionViolationError' in norm_text(n) for k, n in ex)
-    ctx.check('R10.1', ok, "start_index is 0 when absent, 0/1 as given, '0'/'1' converted, anything else is a ConventionViolationError", gs, gs.node,
-              construct=f"_get_start_index returns {rv}")
-    # who may read raw connectivity values
-    offenders = []
-    for fi in p.functions.values():
-        if not fi.qualname.startswith(UGRID) or fi.qualname == ti.qualname:
-            continue
-        for n in ast.walk(fi.node):
-            if isinstance(n, ast.Attribute) and n.attr in ('values', 'data', 'to_numpy') and 'connectivity' in norm_text(n.value) \
-                    and 'clip_mask' not in norm_text(n.value):
-                offenders.append((fi, n))
-    ctx.check('R10.1', not offenders, "no other code reads the raw values of a connectivity variable", offenders[0][0] if offenders else ti,
-              offenders[0][1] if offenders else ti.node, construct='raw connectivity reads outside _to_index_array: ' +
-              (', '.join(f"{f.short}: {norm_text(n)}" for f, n in offenders) or 'none'))
+    with ctx.section('R10.1'):
+        ti = ctx.func(f"{TOPO}._to_index_array")
+        flow = ctx.flow(ti)
+        cfg = ctx.cfg(ti)
+        da, prim = ti.params[1], ti.params[2]
+        raises = [n for n in walk_no_nested(ti.node) if isinstance(n, ast.Raise)]
+        ok = any(any(inb and norm_text(st.test) == f"{prim} not in {da}.dims" for st, inb in enclosing_ifs(ti, r)) for r in raises)
+        ctx.check('R10.1', ok, "a table lacking its primary dimension is rejected", ti, raises[0] if raises else ti.node,
+                  construct=f"raise under `{prim} not in {da}.dims`")
+        trs = [c for c in method_calls(ti, 'transpose')]
+        ok = False
+        if len(trs) == 1:
+            g = [(norm_text(st.test), inb) for st, inb in enclosing_ifs(ti, trs[0])]
+            st = stmt_of(ti, trs[0])
+            ok = ((f"{da}.dims[0] != {prim}", True) in g and isinstance(st, ast.Assign) and norm_text(st.targets[0]) == da
+                  and norm_text(trs[0].func.value) == da and not trs[0].args)
+        ctx.check('R10.1', ok, "the table is transposed exactly when its first dimension is not the primary dimension", ti, trs[0] if trs else ti.node)
+        # the three-way masking
+        branch = None
+        for n in walk_no_nested(ti.node):
+            if isinstance(n, ast.If) and 'numpy.integer' in norm_text(n.test):
+                branch = n
+        ctx.need('R10.1', branch is not None, "_to_index_array distinguishes integer from floating point tables", ti)
+        t1 = norm_text(branch.test)
+        ok1 = t1 == 'not issubclass(values.dtype.type, numpy.integer)'
+        body1 = ' '.join(norm_text(s) for s in branch.body)
+        ok1 = ok1 and 'numpy.ma.masked_invalid(values)' in body1 and 'astype(self.sensible_dtype)' in body1
+        ctx.check('R10.1', ok1, "floating point tables: NaN entries are masked (masked_invalid) and the rest cast to the integer dtype", ti, branch,
+                  construct=f"float branch: {t1}")
+        ok2 = False
+        ok3 = False
+        if len(branch.orelse) == 1 and isinstance(branch.orelse[0], ast.If):
+            el = branch.orelse[0]
+            ok2 = norm_text(el.test) == f"'_FillValue' in {da}.attrs" and any(
+                isinstance(c, ast.Call) and callee(ctx, ti, c) == 'numpy.ma.masked_equal' and len(c.args) == 2
+                and norm_text(c.args[1]) == f"{da}.attrs['_FillValue']" for s in el.body for c in ast.walk(s))
+            eb = ' '.join(norm_text(s) for s in el.orelse)
+            ok3 = bool(el.orelse) and 'numpy.ma.masked_array(values' in eb and 'nomask' in eb
+        ctx.check('R10.1', ok2, "integer tables with a _FillValue attribute: entries equal to it are masked", ti, branch.orelse[0] if branch.orelse else branch,
+                  construct='elif `_FillValue` in attrs: masked_equal(values, attrs[_FillValue])')
+        ctx.check('R10.1', ok3, "otherwise nothing is masked (exhaustive third case)", ti, branch, construct='else: masked_array(values, mask=nomask)')
+        # masking sees the RAW values; start_index is subtracted afterwards
+        subs = [n for n in walk_no_nested(ti.node) if isinstance(n, ast.Assign) and isinstance(n.value, ast.BinOp) and isinstance(n.value.op, ast.Sub)
+                and flow.reaches(n.value.right, lambda m: isinstance(m, ast.Call) and callee(ctx, ti, m) == f"{UGRID}._get_start_index")]
+        other_sub = [n for n in ast.walk(ti.node) if isinstance(n, ast.BinOp) and isinstance(n.op, (ast.Sub, ast.Add))
+                     and not any(n is s.value for s in subs)]
+        ok_sub = len(subs) == 1 and cfg.dominates(branch, subs[0]) and not any(x is subs[0] for x in ast.walk(branch))
+        ctx.check('R10.1', ok_sub, "start_index is subtracted once, after the fill entries have been masked", ti, subs[0] if subs else ti.node,
+                  construct=f"start_index subtraction: {norm_text(subs[0]) if subs else 'absent'}")
+        raw = [n for n in walk_no_nested(ti.node) if isinstance(n, ast.Assign) and norm_text(n.targets[0]) == 'values' and cfg.dominates(n, branch)]
+        ok_raw = len(raw) == 1 and norm_text(raw[0].value) == f"{da}.values"
+        ctx.check('R10.1', ok_raw and not other_sub, "the values compared with the fill value are the stored ones (no arithmetic before masking)", ti,
+                  raw[0] if raw else ti.node, construct=f"values before masking: {[norm_text(r.value) for r in raw]}; other arithmetic: {[norm_text(o) for o in other_sub]}")
+        if subs:
+            g = [(norm_text(st.test), inb) for st, inb in enclosing_ifs(ti, subs[0])]
+            arg_ok = flow.reaches(subs[0].value.right, lambda m: isinstance(m, ast.Call) and callee(ctx, ti, m) == f"{UGRID}._get_start_index"
+                                  and len(m.args) == 1 and norm_text(m.args[0]) == da)
+            ctx.check('R10.1', arg_ok and norm_text(subs[0].targets[0]) == 'values' and norm_text(subs[0].value.left) == 'values',
+                      "the offset subtracted is this table's own start_index", ti, subs[0])
+        rets = ti.returns()
+        ctx.check('R10.1', bool(rets) and all(norm_text(r.value) == 'values' for r in rets), "the normalised array is returned", ti, rets[0] if rets else ti.node)
+        gs = ctx.func(f"{UGRID}._get_start_index")
+        gflow = ctx.flow(gs)
+        rv = []
+        for r in gs.returns():
+            tests = [norm_text(st.test) for st, inb in enclosing_ifs(gs, r) if inb]
+            rv.append((norm_text(r.value), tests))
+        ok = (("0", ["'start_index' not in connectivity.attrs"]) in rv and any(v.endswith('start_index)') and t == ['start_index in {0, 1}'] for v, t in rv)
+              and any(v == 'int(start_index)' and t == ["start_index in {'0', '1'}"] for v, t in rv))
+        gcfg = ctx.cfg(gs)
+        ex = gcfg.exits()
+        ok = ok and not [n for k, n in ex if k == 'fall'] and any(k == 'raise' and 'ConventionViolationError' in norm_text(n) for k, n in ex)
+        ctx.check('R10.1', ok, "start_index is 0 when absent, 0/1 as given, '0'/'1' converted, anything else is a ConventionViolationError", gs, gs.node,
+                  construct=f"_get_start_index returns {rv}")
+        # who may read raw connectivity values
+        offenders = []
+        for fi in p.functions.values():
+            if not fi.qualname.startswith(UGRID) or fi.qualname == ti.qualname:
+                continue
+            for n in ast.walk(fi.node):
+                if isinstance(n, ast.Attribute) and n.attr in ('values', 'data', 'to_numpy') and 'connectivity' in norm_text(n.value) \
+                        and 'clip_mask' not in norm_text(n.value):
+                    offenders.append((fi, n))
+        ctx.check('R10.1', not offenders, "no other code reads the raw values of a connectivity variable", offenders[0][0] if offenders else ti,
+                  offenders[0][1] if offenders else ti.node, construct='raw connectivity reads outside _to_index_array: ' +
+                  (', '.join(f"{f.short}: {norm_text(n)}" for f, n in offenders) or 'none'))
 
-    from .common import purity_obligations
-    purity_obligations(ctx, 'R10.6', ti, [da], "_to_index_array")
+        from .common import purity_obligations
+        purity_obligations(ctx, 'R10.6', ti, [da], "_to_index_array")
 
     # ------------------------------------------------------------------ R10.2
-    for tab in TABLES:
-        a, b = tab.split('_')
-        arr = ctx.func(f"{TOPO}.{tab}_array")
-        aflow = ctx.flow(arr)
-        norm = [c for c in method_calls(arr, '_to_index_array') if norm_text(c.func.value) == 'self']
-        ok = (len(norm) == 1 and len(norm[0].args) == 2 and norm_text(norm[0].args[0]) == f"self.{tab}_connectivity"
-              and norm_text(norm[0].args[1]) == f"self.{a}_dimension")
-        ctx.check('R10.2', ok, f"{tab}: the supplied table is normalised with its row ({a}) dimension as primary dimension", arr,
-                  norm[0] if norm else arr.node, construct=f"{tab}_array: {norm_text(norm[0]) if norm else 'no _to_index_array call'}")
-        if tab == 'face_node':
-            ctx.check('R10.2', bool(norm) and not enclosing_ifs(arr, norm[0]) and all(aflow.resolve(r.value) is norm[0] for r in arr.returns()),
-                      "face_node: the required table is always the supplied one", arr, arr.node, construct='face_node_array returns the normalised table')
-        else:
-            g = [(norm_text(st.test), inb) for st, inb in enclosing_ifs(arr, norm[0])] if norm else []
-            ok = (f"self.has_valid_{tab}_connectivity", True) in g and any(aflow.resolve(r.value) is norm[0] for r in arr.returns())
-            ctx.check('R10.2', ok, f"{tab}: the supplied table is used exactly when has_valid_{tab}_connectivity", arr, arr.node,
-                      construct=f"guard {[t for t, _ in g]}")
-            fall = [r for r in arr.returns() if norm_text(r.value) == f"self.make_{tab}_array()"]
-            ctx.check('R10.2', len(fall) == 1 and not enclosing_ifs(arr, fall[0])[len([x for x in enclosing_ifs(arr, arr.node)]):],
-                      f"{tab}: otherwise it is derived by make_{tab}_array()", arr, fall[0] if fall else arr.node,
-                      construct=f"fallback: {norm_text(fall[0]) if fall else 'absent'}")
-            hv = ctx.func(f"{TOPO}.has_valid_{tab}_connectivity")
-            body_txt = [norm_text(s) for s in hv.body]
-            lookups = [n for n in ast.walk(hv.node) if isinstance(n, ast.Subscript) and norm_text(n.value) == 'self.mesh_attributes']
+    with ctx.section('R10.2'):
+        for tab in TABLES:
+            a, b = tab.split('_')
+            arr = ctx.func(f"{TOPO}.{tab}_array")
+            aflow = ctx.flow(arr)
+            norm = [c for c in method_calls(arr, '_to_index_array') if norm_text(c.func.value) == 'self']
+            ok = (len(norm) == 1 and len(norm[0].args) == 2 and norm_text(norm[0].args[0]) == f"self.{tab}_connectivity"
+                  and norm_text(norm[0].args[1]) == f"self.{a}_dimension")
+            ctx.check('R10.2', ok, f"{tab}: the supplied table is normalised with its row ({a}) dimension as primary dimension", arr,
+                      norm[0] if norm else arr.node, construct=f"{tab}_array: {norm_text(norm[0]) if norm else 'no _to_index_array call'}")
+            if tab == 'face_node':
+                ctx.check('R10.2', bool(norm) and not enclosing_ifs(arr, norm[0]) and all(aflow.resolve(r.value) is norm[0] for r in arr.returns()),
+                          "face_node: the required table is always the supplied one", arr, arr.node, construct='face_node_array returns the normalised table')
+            else:
+                g = [(norm_text(st.test), inb) for st, inb in enclosing_ifs(arr, norm[0])] if norm else []
+                ok = (f"self.has_valid_{tab}_connectivity", True) in g and any(aflow.resolve(r.value) is norm[0] for r in arr.returns())
+                ctx.check('R10.2', ok, f"{tab}: the supplied table is used exactly when has_valid_{tab}_connectivity", arr, arr.node,
+                          construct=f"guard {[t for t, _ in g]}")
+                fall = [r for r in arr.returns() if norm_text(r.value) == f"self.make_{tab}_array()"]
+                ctx.check('R10.2', len(fall) == 1 and not enclosing_ifs(arr, fall[0])[len([x for x in enclosing_ifs(arr, arr.node)]):],
+                          f"{tab}: otherwise it is derived by make_{tab}_array()", arr, fall[0] if fall else arr.node,
+                          construct=f"fallback: {norm_text(fall[0]) if fall else 'absent'}")
+                hv = ctx.func(f"{TOPO}.has_valid_{tab}_connectivity")
+                body_txt = [norm_text(s) for s in hv.body]
+                lookups = [n for n in ast.walk(hv.node) if isinstance(n, ast.Subscript) and norm_text(n.value) == 'self.mesh_attributes']
+                keys = {const_value(n.slice, None) for n in lookups}
+                ctx.check('R10.2', keys == {f"{tab}_connectivity"}, f"{tab}: validity is judged on the table named by the {tab}_connectivity attribute", hv,
+                          lookups[0] if lookups else hv.node, construct=f"attribute keys read: {sorted(str(k) for k in keys)}")
+                if a == 'edge' or b == 'edge' and False:
+                    first = hv.body[0] if hv.body else None
+                    ok = isinstance(first, ast.If) and norm_text(first.test) == 'not self.has_edge_dimension' and \
+                        all(isinstance(s, ast.Return) and const_value(s.value, None) is False for s in first.body)
+                    ctx.check('R10.2', ok, f"{tab}: an edge table is valid only on a mesh that has an edge dimension (declared or implied)", hv,
+                              first or hv.node, construct=f"first test: {norm_text(first.test) if isinstance(first, ast.If) else 'absent'}")
+                exp = [n for n in walk_no_nested(hv.node) if isinstance(n, ast.Assign) and norm_text(n.targets[0]) == 'expected']
+                want = {f"self.{a}_dimension", f"self.{SECOND_DIM[tab]}"}
+                got = {norm_text(e) for e in exp[0].value.elts} if exp and isinstance(exp[0].value, ast.Set) else set()
+                ctx.check('R10.2', got == want, f"{tab}: expected dimensions are {{{a} dimension, {SECOND_DIM[tab]}}}", hv, exp[0] if exp else hv.node,
+                          construct=f"expected = {sorted(got)}")
+                cmp_ok = any(isinstance(n, ast.If) and norm_text(n.test) == 'actual != expected' and
+                             any(isinstance(s, ast.Return) and const_value(s.value, None) is False for s in n.body) for n in walk_no_nested(hv.node))
+                act = [n for n in walk_no_nested(hv.node) if isinstance(n, ast.Assign) and norm_text(n.targets[0]) == 'actual']
+                ok = cmp_ok and bool(act) and norm_text(act[0].value) == 'set(data_array.dims)'
+                ok = ok and any(isinstance(s, ast.Return) and const_value(s.value, None) is True for s in hv.body[-1:])
+                ctx.check('R10.2', ok, f"{tab}: a table with other dimensions is not used (warning, False); a matching one is valid", hv, hv.node,
+                          construct='actual = set(data_array.dims); if actual != expected: return False; ...; return True')
+            conn = ctx.func(f"{TOPO}.{tab}_connectivity")
+            lookups = [n for n in ast.walk(conn.node) if isinstance(n, ast.Subscript) and norm_text(n.value) == 'self.mesh_attributes']
             keys = {const_value(n.slice, None) for n in lookups}
-            ctx.check('R10.2', keys == {f"{tab}_connectivity"}, f"{tab}: validity is judged on the table named by the {tab}_connectivity attribute", hv,
-                      lookups[0] if lookups else hv.node, construct=f"attribute keys read: {sorted(str(k) for k in keys)}")
-            if a == 'edge' or b == 'edge' and False:
-                first = hv.body[0] if hv.body else None
-                ok = isinstance(first, ast.If) and norm_text(first.test) == 'not self.has_edge_dimension' and \
-                    all(isinstance(s, ast.Return) and const_value(s.value, None) is False for s in first.body)
-                ctx.check('R10.2', ok, f"{tab}: an edge table is valid only on a mesh that has an edge dimension (declared or implied)", hv,
-                          first or hv.node, construct=f"first test: {norm_text(first.test) if isinstance(first, ast.If) else 'absent'}")
-            exp = [n for n in walk_no_nested(hv.node) if isinstance(n, ast.Assign) and norm_text(n.targets[0]) == 'expected']
-            want = {f"self.{a}_dimension", f"self.{SECOND_DIM[tab]}"}
-            got = {norm_text(e) for e in exp[0].value.elts} if exp and isinstance(exp[0].value, ast.Set) else set()
-            ctx.check('R10.2', got == want, f"{tab}: expected dimensions are {{{a} dimension, {SECOND_DIM[tab]}}}", hv, exp[0] if exp else hv.node,
-                      construct=f"expected = {sorted(got)}")
-            cmp_ok = any(isinstance(n, ast.If) and norm_text(n.test) == 'actual != expected' and
-                         any(isinstance(s, ast.Return) and const_value(s.value, None) is False for s in n.body) for n in walk_no_nested(hv.node))
-            act = [n for n in walk_no_nested(hv.node) if isinstance(n, ast.Assign) and norm_text(n.targets[0]) == 'actual']
-            ok = cmp_ok and bool(act) and norm_text(act[0].value) == 'set(data_array.dims)'
-            ok = ok and any(isinstance(s, ast.Return) and const_value(s.value, None) is True for s in hv.body[-1:])
-            ctx.check('R10.2', ok, f"{tab}: a table with other dimensions is not used (warning, False); a matching one is valid", hv, hv.node,
-                      construct='actual = set(data_array.dims); if actual != expected: return False; ...; return True')
-        conn = ctx.func(f"{TOPO}.{tab}_connectivity")
-        lookups = [n for n in ast.walk(conn.node) if isinstance(n, ast.Subscript) and norm_text(n.value) == 'self.mesh_attributes']
-        keys = {const_value(n.slice, None) for n in lookups}
-        ok = keys == {f"{tab}_connectivity"} and all('self.dataset' in norm_text(r.value) and norm_text(r.value).endswith('[name]') for r in conn.returns())
-        ctx.check('R10.2', ok, f"{tab}: the connectivity variable is the one named by the mesh attribute {tab}_connectivity", conn, conn.node,
-                  construct=f"{tab}_connectivity reads attribute {sorted(str(k) for k in keys)}")
+            ok = keys == {f"{tab}_connectivity"} and all('self.dataset' in norm_text(r.value) and norm_text(r.value).endswith('[name]') for r in conn.returns())
+            ctx.check('R10.2', ok, f"{tab}: the connectivity variable is the one named by the mesh attribute {tab}_connectivity", conn, conn.node,
+                      construct=f"{tab}_connectivity reads attribute {sorted(str(k) for k in keys)}")
 
     # ------------------------------------------------------------------ R10.3
-    for elem in ('node', 'edge', 'face'):
-        coord = ctx.func(f"{TOPO}._{elem}_coordinates")
-        ok = all(norm_text(r.value) == f"_split_coord(self.mesh_attributes['{elem}_coordinates'])" for r in coord.returns()) and coord.returns()
-        ctx.check('R10.3', bool(ok), f"{elem} coordinate names come from the {elem}_coordinates attribute", coord, coord.node)
-        for i, axis in enumerate('xy'):
-            fi = ctx.func(f"{TOPO}.{elem}_{axis}")
-            subs = [n for n in ast.walk(fi.node) if isinstance(n, ast.Subscript) and norm_text(n.slice) == f"self._{elem}_coordinates[{i}]"]
-            ok = len(subs) == 1 and norm_text(subs[0].value) in ('self.dataset', 'self.dataset.variables')
-            ctx.check('R10.3', ok, f"{elem}_{axis} is element {i} of that pair, looked up dataset-wide", fi, subs[0] if subs else fi.node,
-                      construct=f"{elem}_{axis}: {norm_text(subs[0]) if subs else 'lookup not found'}")
-    sc = ctx.func(f"{UGRID}._split_coord")
-    ok = any(norm_text(n) == 'x, y = attr.split(None, 1)' for n in sc.body) and all(norm_text(r.value) == '(x, y)' for r in sc.returns())
-    ctx.check('R10.3', ok, "the attribute is split into (x name, y name) in that order", sc, sc.node)
+    with ctx.section('R10.3'):
+        for elem in ('node', 'edge', 'face'):
+            coord = ctx.func(f"{TOPO}._{elem}_coordinates")
+            ok = all(norm_text(r.value) == f"_split_coord(self.mesh_attributes['{elem}_coordinates'])" for r in coord.returns()) and coord.returns()
+            ctx.check('R10.3', bool(ok), f"{elem} coordinate names come from the {elem}_coordinates attribute", coord, coord.node)
+            for i, axis in enumerate('xy'):
+                fi = ctx.func(f"{TOPO}.{elem}_{axis}")
+                subs = [n for n in ast.walk(fi.node) if isinstance(n, ast.Subscript) and norm_text(n.slice) == f"self._{elem}_coordinates[{i}]"]
+                ok = len(subs) == 1 and norm_text(subs[0].value) in ('self.dataset', 'self.dataset.variables')
+                ctx.check('R10.3', ok, f"{elem}_{axis} is element {i} of that pair, looked up dataset-wide", fi, subs[0] if subs else fi.node,
+                          construct=f"{elem}_{axis}: {norm_text(subs[0]) if subs else 'lookup not found'}")
+        sc = ctx.func(f"{UGRID}._split_coord")
+        ok = any(norm_text(n) == 'x, y = attr.split(None, 1)' for n in sc.body) and all(norm_text(r.value) == '(x, y)' for r in sc.returns())
+        ctx.check('R10.3', ok, "the attribute is split into (x name, y name) in that order", sc, sc.node)
 
     # ------------------------------------------------------------------ R10.4
-    it = ctx.func(f"{TOPO}._face_and_node_pair_iter")
-    body = [norm_text(s) for s in ast.walk(it.node) if isinstance(s, (ast.Assign, ast.Expr, ast.For))]
-    ok = (any(t == 'node_indexes = node_indexes.compressed()' for t in body)
-          and any(t == 'node_indexes = numpy.append(node_indexes, node_indexes[0])' for t in body)
-          and any('yield (face_index, list(utils.pairwise(node_indexes)))' in t for t in body)
-          and any(isinstance(n, ast.For) and norm_text(n.iter) == 'enumerate(face_node)' for n in ast.walk(it.node))
-          and any(norm_text(n) == 'face_node = self.face_node_array' for n in it.body))
-    ctx.check('R10.4', ok, "a face's edges are its consecutive node pairs, closing back to the first node, over the normalised face-node table", it, it.node)
-    pw = ctx.func('emsarray.utils.pairwise')
-    ok = [norm_text(s) for s in pw.body] == ['a, b = itertools.tee(iterable)', 'next(b, None)', 'return zip(a, b)']
-    ctx.check('R10.4', ok, "pairwise yields (s0,s1), (s1,s2), ...", pw, pw.node)
-    me = ctx.func(f"{TOPO}.make_edge_node_array")
-    loops = [n for n in walk_no_nested(me.node) if isinstance(n, ast.For)]
-    ok = any(norm_text(l.iter) == 'self._face_and_node_pair_iter()' for l in loops)
-    ok = ok and any(norm_text(n) == 'low, high = sorted(pair)' for n in ast.walk(me.node) if isinstance(n, ast.Assign))
-    ok = ok and any(norm_text(n) == 'low_highs[low].add(high)' for n in ast.walk(me.node) if isinstance(n, ast.Expr))
-    ctx.check('R10.4', ok, "edges are de-duplicated by sorted (unordered) node pair over that iterator", me, me.node)
-    mf = ctx.func(f"{TOPO}.make_face_edge_array")
-    loops = [n for n in walk_no_nested(mf.node) if isinstance(n, ast.For)]
-    ok = any(norm_text(l.iter) == 'self._face_and_node_pair_iter()' for l in loops)
-    dc = [n for n in ast.walk(mf.node) if isinstance(n, ast.DictComp)]
-    ok = ok and len(dc) == 1 and norm_text(dc[0].key) == 'frozenset(edge)' and norm_text(dc[0].value) == 'edge_index' \
-        and norm_text(dc[0].generators[0].iter) == 'enumerate(self.edge_node_array)'
-    ok = ok and any(norm_text(n) == 'edge_index = node_pair_to_edge_index[frozenset(node_pair)]' for n in ast.walk(mf.node) if isinstance(n, ast.Assign))
-    ok = ok and any(norm_text(n) == 'face_edge[face_index, column] = edge_index' for n in ast.walk(mf.node) if isinstance(n, ast.Assign))
-    ok = ok and any(isinstance(n, ast.For) and norm_text(n.iter) == 'enumerate(node_pairs)' and norm_text(n.target) == '(column, node_pair)' for n in ast.walk(mf.node))
-    ctx.check('R10.4', ok, "face-edge: column k of a face is the edge (looked up by unordered pair in the edge-node table in use) of its k-th node pair", mf, mf.node)
-    shape = [n for n in walk_no_nested(mf.node) if isinstance(n, ast.Assign) and norm_text(n.targets[0]) == 'shape']
-    ctx.check('R10.4', bool(shape) and norm_text(shape[0].value) == '(self.face_count, self.max_node_count)', "face-edge has one row per face and max_node_count columns", mf,
-              shape[0] if shape else mf.node)
-    mef = ctx.func(f"{TOPO}.make_edge_face_array")
-    txt = [norm_text(n) for n in ast.walk(mef.node) if isinstance(n, (ast.Assign, ast.AugAssign, ast.For))]
-    ok = (any(t.startswith('for face_index, edge_indexes in enumerate(self.face_edge_array)') for t in txt)
-          and any(t.startswith('for edge_index in edge_indexes.compressed()') for t in txt)
-          and 'edge_face[edge_index, edge_face_count[edge_index]] = face_index' in txt and 'edge_face_count[edge_index] += 1' in txt
-          and 'shape = (self.edge_count, 2)' in txt)
-    ctx.check('R10.4', ok, "edge-face: every face is recorded on each of its edges, in the next free of two slots", mef, mef.node)
-    mff = ctx.func(f"{TOPO}.make_face_face_array")
-    txt = [norm_text(n) for n in ast.walk(mff.node) if isinstance(n, (ast.Assign, ast.AugAssign, ast.For, ast.If))]
-    ok = (any(t.startswith('for edge_index, face_indexes in enumerate(self.edge_face_array)') for t in txt)
-          and 'left, right = face_indexes' in txt
-          and 'face_face[left, face_count[left]] = right' in txt and 'face_face[right, face_count[right]] = left' in txt
-          and 'face_count[left] += 1' in txt and 'face_count[right] += 1' in txt
-          and any(t.startswith('if numpy.any(numpy.ma.getmask(face_indexes))') for t in txt))
-    ctx.check('R10.4', ok, "face-face: each interior edge links its two faces in both directions (symmetric adjacency); boundary edges are skipped", mff, mff.node)
-    for name in ('make_edge_face_array', 'make_face_face_array', 'make_face_edge_array'):
-        fi = ctx.func(f"{TOPO}.{name}")
-        ok = any('numpy.ma.masked_array(filled, mask=True)' in norm_text(n) for n in fi.body) and \
-            all(norm_text(r.value) in ('edge_face', 'face_face', 'face_edge') for r in fi.returns())
-        ctx.check('R10.4', ok, "derived tables start fully masked, so unused slots stay missing", fi, fi.node, construct=f"{name}: masked_array(filled, mask=True)")
+    with ctx.section('R10.4'):
+        it = ctx.func(f"{TOPO}._face_and_node_pair_iter")
+        body = [norm_text(s) for s in ast.walk(it.node) if isinstance(s, (ast.Assign, ast.Expr, ast.For))]
+        ok = (any(t == 'node_indexes = node_indexes.compressed()' for t in body)
+              and any(t == 'node_indexes = numpy.append(node_indexes, node_indexes[0])' for t in body)
+              and any('yield (face_index, list(utils.pairwise(node_indexes)))' in t for t in body)
+              and any(isinstance(n, ast.For) and norm_text(n.iter) == 'enumerate(face_node)' for n in ast.walk(it.node))
+              and any(norm_text(n) == 'face_node = self.face_node_array' for n in it.body))
+        ctx.check('R10.4', ok, "a face's edges are its consecutive node pairs, closing back to the first node, over the normalised face-node table", it, it.node)
+        pw = ctx.func('emsarray.utils.pairwise')
+        ok = [norm_text(s) for s in pw.body] == ['a, b = itertools.tee(iterable)', 'next(b, None)', 'return zip(a, b)']
+        ctx.check('R10.4', ok, "pairwise yields (s0,s1), (s1,s2), ...", pw, pw.node)
+        me = ctx.func(f"{TOPO}.make_edge_node_array")
+        loops = [n for n in walk_no_nested(me.node) if isinstance(n, ast.For)]
+        ok = any(norm_text(l.iter) == 'self._face_and_node_pair_iter()' for l in loops)
+        ok = ok and any(norm_text(n) == 'low, high = sorted(pair)' for n in ast.walk(me.node) if isinstance(n, ast.Assign))
+        ok = ok and any(norm_text(n) == 'low_highs[low].add(high)' for n in ast.walk(me.node) if isinstance(n, ast.Expr))
+        ctx.check('R10.4', ok, "edges are de-duplicated by sorted (unordered) node pair over that iterator", me, me.node)
+        mf = ctx.func(f"{TOPO}.make_face_edge_array")
+        loops = [n for n in walk_no_nested(mf.node) if isinstance(n, ast.For)]
+        ok = any(norm_text(l.iter) == 'self._face_and_node_pair_iter()' for l in loops)
+        dc = [n for n in ast.walk(mf.node) if isinstance(n, ast.DictComp)]
+        ok = ok and len(dc) == 1 and norm_text(dc[0].key) == 'frozenset(edge)' and norm_text(dc[0].value) == 'edge_index' \
+            and norm_text(dc[0].generators[0].iter) == 'enumerate(self.edge_node_array)'
+        ok = ok and any(norm_text(n) == 'edge_index = node_pair_to_edge_index[frozenset(node_pair)]' for n in ast.walk(mf.node) if isinstance(n, ast.Assign))
+        ok = ok and any(norm_text(n) == 'face_edge[face_index, column] = edge_index' for n in ast.walk(mf.node) if isinstance(n, ast.Assign))
+        ok = ok and any(isinstance(n, ast.For) and norm_text(n.iter) == 'enumerate(node_pairs)' and norm_text(n.target) == '(column, node_pair)' for n in ast.walk(mf.node))
+        ctx.check('R10.4', ok, "face-edge: column k of a face is the edge (looked up by unordered pair in the edge-node table in use) of its k-th node pair", mf, mf.node)
+        shape = [n for n in walk_no_nested(mf.node) if isinstance(n, ast.Assign) and norm_text(n.targets[0]) == 'shape']
+        ctx.check('R10.4', bool(shape) and norm_text(shape[0].value) == '(self.face_count, self.max_node_count)', "face-edge has one row per face and max_node_count columns", mf,
+                  shape[0] if shape else mf.node)
+        mef = ctx.func(f"{TOPO}.make_edge_face_array")
+        txt = [norm_text(n) for n in ast.walk(mef.node) if isinstance(n, (ast.Assign, ast.AugAssign, ast.For))]
+        ok = (any(t.startswith('for face_index, edge_indexes in enumerate(self.face_edge_array)') for t in txt)
+              and any(t.startswith('for edge_index in edge_indexes.compressed()') for t in txt)
+              and 'edge_face[edge_index, edge_face_count[edge_index]] = face_index' in txt and 'edge_face_count[edge_index] += 1' in txt
+              and 'shape = (self.edge_count, 2)' in txt)
+        ctx.check('R10.4', ok, "edge-face: every face is recorded on each of its edges, in the next free of two slots", mef, mef.node)
+        mff = ctx.func(f"{TOPO}.make_face_face_array")
+        txt = [norm_text(n) for n in ast.walk(mff.node) if isinstance(n, (ast.Assign, ast.AugAssign, ast.For, ast.If))]
+        ok = (any(t.startswith('for edge_index, face_indexes in enumerate(self.edge_face_array)') for t in txt)
+              and 'left, right = face_indexes' in txt
+              and 'face_face[left, face_count[left]] = right' in txt and 'face_face[right, face_count[right]] = left' in txt
+              and 'face_count[left] += 1' in txt and 'face_count[right] += 1' in txt
+              and any(t.startswith('if numpy.any(numpy.ma.getmask(face_indexes))') for t in txt))
+        ctx.check('R10.4', ok, "face-face: each interior edge links its two faces in both directions (symmetric adjacency); boundary edges are skipped", mff, mff.node)
+        for name in ('make_edge_face_array', 'make_face_face_array', 'make_face_edge_array'):
+            fi = ctx.func(f"{TOPO}.{name}")
+            ok = any('numpy.ma.masked_array(filled, mask=True)' in norm_text(n) for n in fi.body) and \
+                all(norm_text(r.value) in ('edge_face', 'face_face', 'face_edge') for r in fi.returns())
+            ctx.check('R10.4', ok, "derived tables start fully masked, so unused slots stay missing", fi, fi.node, construct=f"{name}: masked_array(filled, mask=True)")
 
     # ------------------------------------------------------------------ R10.5
-    fd = ctx.func(f"{TOPO}.face_dimension")
-    rv = [norm_text(r.value) for r in fd.returns()]
-    ctx.check('R10.5', rv == ["self.mesh_attributes['face_dimension']", 'self.face_node_connectivity.dims[0]'],
-              "face dimension: the face_dimension attribute, else the first dimension of face_node_connectivity", fd, fd.node, construct=f"returns {rv}")
-    nd = ctx.func(f"{TOPO}.node_dimension")
-    ctx.check('R10.5', [norm_text(r.value) for r in nd.returns()] == ['self.node_x.dims[0]'], "node dimension: the dimension of node_x", nd, nd.node)
-    mn = ctx.func(f"{TOPO}.max_node_dimension")
-    txt = [norm_text(s) for s in mn.body]
-    ok = 'dims = set(self.face_node_connectivity.dims)' in txt and 'dims.remove(self.face_dimension)' in txt and 'return dims.pop()' in txt
-    ctx.check('R10.5', ok, "max-node dimension: the other dimension of face_node_connectivity", mn, mn.node)
-    ed = ctx.func(f"{TOPO}.edge_dimension")
-    txt = ' '.join(norm_text(s) for s in ed.body)
-    ok = ("if not self.has_edge_dimension" in txt and "return self.mesh_attributes['edge_dimension']" in txt
-          and "topo_keys = ['edge_node_connectivity', 'edge_face_connectivity']" in txt and 'variable.dims[0] for variable in variables' in txt)
-    ctx.check('R10.5', ok, "edge dimension: the edge_dimension attribute, else the first dimension of a supplied edge table", ed, ed.node)
-    # the declared attribute wins over the inferred dimension (a transposed table would otherwise name the wrong one)
-    from ..pattern import Matcher
-    med = Matcher(ctx, ed)
-    attr_ret = [r for r in ed.returns() if norm_text(r.value) == "self.mesh_attributes['edge_dimension']"]
-    infer_ret = [r for r in ed.returns() if 'dims[0]' in norm_text(ctx.flow(ed).resolve(r.value))]
-    ok = len(attr_ret) == 1 and len(infer_ret) == 1 and attr_ret[0].lineno < infer_ret[0].lineno \
-        and not any(any(x is attr_ret[0] for x in ast.walk(h)) for t in ast.walk(ed.node) if isinstance(t, ast.Try) for h in t.handlers)
-    ctx.check('R10.5', ok, "the edge_dimension attribute is consulted first; the first dimension of an edge table is only the fall-back", ed,
-              attr_ret[0] if attr_ret else ed.node, construct=f"edge_dimension returns, in order: {[norm_text(r.value) for r in sorted(ed.returns(), key=lambda r: r.lineno)]}")
-    tw = ctx.func(f"{TOPO}.two_dimension")
-    mt = Matcher(ctx, tw)
-    std = mt.stmt("if $two in self.dataset.sizes and self.dataset.sizes[$two] == 2:\n    return $two")
-    scan = [n for n in walk_no_nested(tw.node) if isinstance(n, ast.For) and 'sizes.items()' in norm_text(n.iter)]
-    two_def = [n for n in walk_no_nested(tw.node) if isinstance(n, ast.Assign) and const_value(n.value, None) == 'Two']
-    ok = std is not None and len(scan) == 1 and std.lineno < scan[0].lineno and len(two_def) == 1 and mt.name('two') == norm_text(two_def[0].targets[0]) \
-        and any(isinstance(s, ast.If) and norm_text(s.test).endswith('== 2') and any(isinstance(x, ast.Return) for x in s.body) for s in scan[0].body) \
-        and norm_text(tw.returns()[-1].value) == mt.name('two')
-    ctx.check('R10.5', ok, "the size-2 dimension is the one named 'Two' when it exists with size 2, else the first dimension of size 2, else a new 'Two'", tw, tw.node,
-              construct='two_dimension: standard name first, then any size-2 dimension, then the standard name')
-    he = ctx.func(f"{TOPO}.has_edge_dimension")
-    txt = ' '.join(norm_text(s) for s in he.body)
-    ok = ("if 'edge_dimension' in self.mesh_attributes: return True" in txt.replace('\n', ' ')
-          and "topo_keys = ['edge_node_connectivity', 'edge_face_connectivity']" in txt
-          and 'key in self.mesh_attributes and self.mesh_attributes[key] in self.dataset.variables' in txt)
-    ctx.check('R10.5', ok, "an edge dimension exists when declared, or implied by a supplied edge table present in the dataset", he, he.node)
-    for name, dim in (('node_count', 'node_dimension'), ('face_count', 'face_dimension'), ('max_node_count', 'max_node_dimension')):
-        fi = ctx.func(f"{TOPO}.{name}")
-        ok = [norm_text(r.value) for r in fi.returns()] == [f"self.dataset.sizes[self.{dim}]"]
-        ctx.check('R10.5', ok, f"{name} is the size of {dim}", fi, fi.node)
+    with ctx.section('R10.5'):
+        fd = ctx.func(f"{TOPO}.face_dimension")
+        rv = [norm_text(r.value) for r in fd.returns()]
+        ctx.check('R10.5', rv == ["self.mesh_attributes['face_dimension']", 'self.face_node_connectivity.dims[0]'],
+                  "face dimension: the face_dimension attribute, else the first dimension of face_node_connectivity", fd, fd.node, construct=f"returns {rv}")
+        nd = ctx.func(f"{TOPO}.node_dimension")
+        ctx.check('R10.5', [norm_text(r.value) for r in nd.returns()] == ['self.node_x.dims[0]'], "node dimension: the dimension of node_x", nd, nd.node)
+        mn = ctx.func(f"{TOPO}.max_node_dimension")
+        txt = [norm_text(s) for s in mn.body]
+        ok = 'dims = set(self.face_node_connectivity.dims)' in txt and 'dims.remove(self.face_dimension)' in txt and 'return dims.pop()' in txt
+        ctx.check('R10.5', ok, "max-node dimension: the other dimension of face_node_connectivity", mn, mn.node)
+        ed = ctx.func(f"{TOPO}.edge_dimension")
+        txt = ' '.join(norm_text(s) for s in ed.body)
+        ok = ("if not self.has_edge_dimension" in txt and "return self.mesh_attributes['edge_dimension']" in txt
+              and "topo_keys = ['edge_node_connectivity', 'edge_face_connectivity']" in txt and 'variable.dims[0] for variable in variables' in txt)
+        ctx.check('R10.5', ok, "edge dimension: the edge_dimension attribute, else the first dimension of a supplied edge table", ed, ed.node)
+        # the declared attribute wins over the inferred dimension (a transposed table would otherwise name the wrong one)
+        from ..pattern import Matcher
+        med = Matcher(ctx, ed)
+        attr_ret = [r for r in ed.returns() if norm_text(r.value) == "self.mesh_attributes['edge_dimension']"]
+        infer_ret = [r for r in ed.returns() if 'dims[0]' in norm_text(ctx.flow(ed).resolve(r.value))]
+        ok = len(attr_ret) == 1 and len(infer_ret) == 1 and attr_ret[0].lineno < infer_ret[0].lineno \
+            and not any(any(x is attr_ret[0] for x in ast.walk(h)) for t in ast.walk(ed.node) if isinstance(t, ast.Try) for h in t.handlers)
+        ctx.check('R10.5', ok, "the edge_dimension attribute is consulted first; the first dimension of an edge table is only the fall-back", ed,
+                  attr_ret[0] if attr_ret else ed.node, construct=f"edge_dimension returns, in order: {[norm_text(r.value) for r in sorted(ed.returns(), key=lambda r: r.lineno)]}")
+        tw = ctx.func(f"{TOPO}.two_dimension")
+        mt = Matcher(ctx, tw)
+        std = mt.stmt("if $two in self.dataset.sizes and self.dataset.sizes[$two] == 2:\n    return $two")
+        scan = [n for n in walk_no_nested(tw.node) if isinstance(n, ast.For) and 'sizes.items()' in norm_text(n.iter)]
+        two_def = [n for n in walk_no_nested(tw.node) if isinstance(n, ast.Assign) and const_value(n.value, None) == 'Two']
+        ok = std is not None and len(scan) == 1 and std.lineno < scan[0].lineno and len(two_def) == 1 and mt.name('two') == norm_text(two_def[0].targets[0]) \
+            and any(isinstance(s, ast.If) and norm_text(s.test).endswith('== 2') and any(isinstance(x, ast.Return) for x in s.body) for s in scan[0].body) \
+            and norm_text(tw.returns()[-1].value) == mt.name('two')
+        ctx.check('R10.5', ok, "the size-2 dimension is the one named 'Two' when it exists with size 2, else the first dimension of size 2, else a new 'Two'", tw, tw.node,
+                  construct='two_dimension: standard name first, then any size-2 dimension, then the standard name')
+        he = ctx.func(f"{TOPO}.has_edge_dimension")
+        txt = ' '.join(norm_text(s) for s in he.body)
+        ok = ("if 'edge_dimension' in self.mesh_attributes: return True" in txt.replace('\n', ' ')
+              and "topo_keys = ['edge_node_connectivity', 'edge_face_connectivity']" in txt
+              and 'key in self.mesh_attributes and self.mesh_attributes[key] in self.dataset.variables' in txt)
+        ctx.check('R10.5', ok, "an edge dimension exists when declared, or implied by a supplied edge table present in the dataset", he, he.node)
+        for name, dim in (('node_count', 'node_dimension'), ('face_count', 'face_dimension'), ('max_node_count', 'max_node_dimension')):
+            fi = ctx.func(f"{TOPO}.{name}")
+            ok = [norm_text(r.value) for r in fi.returns()] == [f"self.dataset.sizes[self.{dim}]"]
+            ctx.check('R10.5', ok, f"{name} is the size of {dim}", fi, fi.node)
+
 
 
 # --------------------------------------------------------------------------- checker self-test
